@@ -892,6 +892,7 @@ def adapt_typehints(
         elif not isinstance(val, list):
             raise_unexpected_value(f"Expected a {typehint_origin}", val)
         if subtypehints is not None:
+            val = list(val)  # adapt a copy: a value that is rejected part-way stays as it was given (it may be tried by another Union member)
             for n, v in enumerate(val):
                 if isinstance(prev_val, list) and len(prev_val) == len(val):
                     adapt_kwargs_n = {**deepcopy(adapt_kwargs), "prev_val": prev_val[n]}
@@ -915,6 +916,8 @@ def adapt_typehints(
             if subtypehints[0] == int:
                 cast = str if serialize else int
                 val = {cast(k): v for k, v in val.items()}
+            else:
+                val = val.copy()  # adapt a copy: a value that is rejected part-way stays as it was given
             for k, v in val.items():
                 if "linked_targets" in adapt_kwargs["sub_add_kwargs"]:
                     kwargs = deepcopy(adapt_kwargs)
